@@ -778,7 +778,9 @@ class Effect(DaeObject):
                 if value is None:
                     continue
                 shadnode.append(getPropNode(prop, value))
-            tecnode.append(shadnode)
+            # the shader element comes before the <extra> elements of the technique
+            extras = [i for i, child in enumerate(tecnode) if child.tag == tag('extra')]
+            tecnode.insert(extras[0] if extras else len(tecnode), shadnode)
         else:
             for prop in self.supported:
                 value = getattr(self, prop)
